@@ -3,6 +3,7 @@ C20 — seekable format: any byte range reads back exactly.  Lookup correctness 
 layout facts of the seek table.
 -/
 import ZstdVerif.Model.Seekable
+import ZstdVerif.Lemmas.SeekRT
 namespace ZstdVerif.Props.C20
 open ZstdVerif ZstdVerif.Seekable
 
@@ -80,6 +81,29 @@ theorem serialize_length (es : List Entry) (ck : Bool) :
     simp only [List.length_append, h, le32bytes, List.length_cons, List.length_nil]
     simp
     all_goals first | exact sum_map_const es 8 | exact sum_map_const es 12 | omega
+
+
+/-- **seektable_roundtrip**: whatever precedes it in the archive, the seek table written for any list of frame entries (sizes and
+checksums below 2^32, table size below 2^32 as in the writer's own limit) is read back by the loader as exactly those entries -
+checksums included when the table carries them, zero otherwise - together with the checksum flag.  Writer and loader models are
+each tied to contrib/seekable_format on every run (tblser / tbl). -/
+theorem seektable_roundtrip (pre : List UInt8) (es : List Entry) (ck : Bool) (hf : ∀ e ∈ es, Fits e)
+    (hn : es.length * 12 + 17 < 4294967296) :
+    load (ByteArray.mk (pre ++ toBytes (serialize es ck)).toArray) = .ok (es.map (norm ck), ck) :=
+  Seekable.seektable_roundtrip pre es ck hf hn
+
+/-- hence the cumulative offsets the reader uses are the ones of the entries that were written -/
+theorem offsets_roundtrip (pre : List UInt8) (es : List Entry) (ck : Bool) (hf : ∀ e ∈ es, Fits e)
+    (hn : es.length * 12 + 17 < 4294967296) :
+    (load (ByteArray.mk (pre ++ toBytes (serialize es ck)).toArray)).toOption.map (fun r => r.1.map (fun e => (e.cSize, e.dSize)))
+      = some (es.map (fun e => (e.cSize, e.dSize))) := by
+  rw [seektable_roundtrip pre es ck hf hn]
+  simp [Except.toOption, norm]
+  intro e _
+  cases ck <;> simp
+
+example : Fits ⟨5, 10, 77⟩ ∧ norm false ⟨5, 10, 77⟩ = ⟨5, 10, 0⟩ := by
+  unfold Fits; decide
 
 example : offsetToFrameIndex (fun i => [0, 10, 20, 35].getD i 35) 3 19 = 1 := by decide
 example : cumulative [⟨5, 10, 0⟩, ⟨7, 20, 0⟩] = [(0, 0), (5, 10), (12, 30)] := by decide
